@@ -949,3 +949,38 @@ V("c04e-sum-of-signed-vector-zero", "C04", {"rule": "C04e", "contains": "np.sum(
 V("c04e-sum-of-abs-zero", "C04", "silent",
   (LOOPH, "    loop_corrections = calculate_loop_corrections(\n        reduced_diagonal_right, reduced_diagonal_left, B, dim_over_2\n    )\n\n    return _calc_f_loop(traces, loop_corrections)",
    "    if np.sum(np.abs(diagonal)) == 0.0:\n        loop_corrections = np.zeros(dim_over_2, dtype=traces.dtype)\n    else:\n        loop_corrections = calculate_loop_corrections(\n            reduced_diagonal_right, reduced_diagonal_left, B, dim_over_2\n        )\n\n    return _calc_f_loop(traces, loop_corrections)"))
+
+# --- round 4 variants
+SIMF2 = "piquasso/api/simulator.py"
+SSTEPS = "piquasso/_simulators/simulation_steps.py"
+GSTEPS2 = "piquasso/_simulators/gaussian/simulation_steps.py"
+TFCONN = "piquasso/_simulators/connectors/tensorflow_/connector.py"
+PASSLIN2 = "piquasso/_simulators/fock/pure/simulation_steps/passive_linear.py"
+V("c16-active-modes-through-set", "C16", {"rule": "C16b", "contains": "_delete_modes_from_active"},
+  (SIMF2, "        return tuple(\n            mode\n            for mode in active_modes\n            if mode not in Simulator._remap_modes_inverse(active_modes, modes)\n        )\n",
+   "        measured = Simulator._remap_modes_inverse(active_modes, modes)\n        return tuple(set(active_modes) - set(measured))\n"))
+V("c12f-branches-share-state", "C12", {"rule": "C12f", "contains": "imperfect_particle_number_measurement"},
+  (SSTEPS, "                            state=branch.state.copy(),\n", "                            state=branch.state,\n"))
+V("c12f-copy-bound-first", "C12", "silent",
+  (SSTEPS, "                    imperfect_branches.append(\n                        Branch(\n                            state=branch.state.copy(),\n",
+   "                    own_state = branch.state.copy()\n                    imperfect_branches.append(\n                        Branch(\n                            state=own_state,\n"))
+V("c02f-detectable-counts-other-axis", "C02", {"rule": "C02f", "contains": "number_of_detectable_counts"},
+  (SSTEPS, "    number_of_detectable_counts = detector_efficiency_matrix.shape[0]\n    detected_outcome_probabilities", "    _, number_of_detectable_counts = detector_efficiency_matrix.shape\n    detected_outcome_probabilities"))
+V("c07e-early-return-skips-update", "C07", {"rule": "C07e", "contains": "_apply_linear_to_auxiliary_modes|update of"},
+  (GSTEPS2, "    auxiliary_G = state._G[auxiliary_index]\n\n    state._C = connector.assign(\n        state._C,\n        auxiliary_index,\n        P.conjugate() @ auxiliary_C",
+   "    auxiliary_G = state._G[auxiliary_index]\n\n    if not np.any(auxiliary_C):\n        return\n\n    state._C = connector.assign(\n        state._C,\n        auxiliary_index,\n        P.conjugate() @ auxiliary_C"))
+V("c09e-tf-polar-conjugated", "C09", {"rule": "C09e", "contains": "TensorflowConnector.polar"},
+  (TFCONN, "            P = self._tf.linalg.sqrtm(matrix @ adjoint)\n", "            P = self._tf.linalg.sqrtm(self.np.conj(matrix) @ matrix.T)\n"))
+V("c09e-tf-polar-u-on-wrong-side", "C09", {"rule": "C09e", "contains": "side=left"},
+  (TFCONN, "            U = self._tf.linalg.inv(P) @ matrix\n", "            U = matrix @ self._tf.linalg.inv(P)\n"))
+V("c09e-tf-polar-inline-adjoint", "C09", "silent",
+  (TFCONN, "            P = self._tf.linalg.sqrtm(matrix @ adjoint)\n", "            P = self._tf.linalg.sqrtm(matrix @ self.np.conj(matrix).T)\n"))
+V("c10b-reordering-conditional", "C10", {"rule": "C10b", "contains": "state-vector order"},
+  (PASSLIN2, "        gradient_by_initial_state = np.concatenate(unordered_gradient_by_initial_state)[\n            fallback_np.concatenate(order_by).argsort()\n        ]\n\n        if static_valued:\n            gradient_by_initial_state = tf.constant(gradient_by_initial_state)\n            gradient_by_matrix",
+   "        gradient_by_initial_state = np.concatenate(unordered_gradient_by_initial_state)\n        if index_list[0].shape[1] != 1:\n            gradient_by_initial_state = gradient_by_initial_state[\n                fallback_np.concatenate(order_by).argsort()\n            ]\n\n        if static_valued:\n            gradient_by_initial_state = tf.constant(gradient_by_initial_state)\n            gradient_by_matrix"))
+V("c14d-kron-block-layout", "C14", {"rule": "C14d", "contains": "mixed-orderings"},
+  (GSTEPS2, "    full_detection_covariance = state._config.hbar * scipy.linalg.block_diag(\n        *[detection_covariance] * len(modes)\n    )\n\n    mean = state.xpxp_mean_vector[indices]",
+   "    full_detection_covariance = state._config.hbar * np.kron(\n        detection_covariance, np.identity(len(modes))\n    )\n\n    mean = state.xpxp_mean_vector[indices]"))
+V("c14d-kron-pairwise-layout", "C14", "silent",
+  (GSTEPS2, "    full_detection_covariance = state._config.hbar * scipy.linalg.block_diag(\n        *[detection_covariance] * len(modes)\n    )\n\n    mean = state.xpxp_mean_vector[indices]",
+   "    full_detection_covariance = state._config.hbar * np.kron(\n        np.identity(len(modes)), detection_covariance\n    )\n\n    mean = state.xpxp_mean_vector[indices]"))
